@@ -39,7 +39,7 @@ func TestTorture(t *testing.T) {
 	if want != gotRace {
 		t.Fatalf("instrumented copy (race build) behaves differently:\nplain: %s\ninst:  %s", want, gotRace)
 	}
-	for _, need := range []string{"lock shims", "once shims", "channel shims"} {
+	for _, need := range []string{"lock shims", "once shims", "channel shims", "select shims", "waitgroup shims"} {
 		if !strings.Contains(out, need) {
 			t.Errorf("instrumenter summary lacks %q", need)
 		}
